@@ -75,6 +75,11 @@ def gen_property(r, idx, profile='mixed'):
     src = ('' if direct else '@pedantic_class\n') + f'class {cls}:\n' + ''.join(block(d, sg, rt, ped) for d, sg, rt in parts)
     twin = f'class {cls}:\n' + ''.join(block(d, sg, rt, '') for d, sg, rt in parts)
     access = [('propget', cls, name)] + ([('propset', cls, name)] if setter else []) + ([('propdel', cls, name)] if deleter else [])
+    if r.random() < 0.25:
+        note = r.choice(['  # noqa: F811', '  # type: ignore[misc]', '  # keep'])
+        def annotate(text):
+            return ''.join((l + note if l.lstrip().startswith('@') else l) + '\n' for l in text.splitlines())
+        src, twin = annotate(src), annotate(twin)
     return {'src': src, 'twin': twin, 'access': access, 'kind': 'prop_direct' if direct else 'prop_class', 'name': name, 'cls': cls, 'idx': idx,
             'flavour': 'sync', 'needle': None, 'stack': 'none', 'alias': False}
 
@@ -99,6 +104,8 @@ def gen_callable(r, idx, profile='mixed'):
         if seen_default or r.random() < 0.3:
             seen_default = True
             dflt = lit_src(r, ann)[0] if ann is not None else '5'
+            if (ann is None or ann in BARE_POOL) and r.random() < 0.4:
+                dflt = 'None'             # the common `items: list = None`
         pname = f'p{i}'
         if r.random() < (0.25 if profile == 'incomplete' else 0.08) and kind not in ('class_class',):      # cls / args / kwargs used as ordinary parameter names
             cand = [n for n in ('cls', 'cls', 'cls', 'args', 'kwargs', 'context', 'func', 'f', 'call', 'value', 'type_', 'err', 'key', 'result', 'instance', 'klass') if n not in [q[0] for q in params]]
@@ -257,6 +264,12 @@ def gen_callable(r, idx, profile='mixed'):
             deco = 'pedantic' if kind == 'bound_direct' else 'require_kwargs'
             src += f'_o{idx} = {cls}()\nb_{name} = {deco}(_o{idx}.{name})\n'
             twin += f'_o{idx} = {cls}()\nb_{name} = _o{idx}.{name}\n'
+    if r.random() < 0.12:
+        # a trailing comment on every decorator line (`@x.setter  # noqa`, `@staticmethod  # type: ignore`): comments are no decorators
+        note = r.choice(['  # noqa: F811', '  # type: ignore[misc]', '  # @staticmethod', '  # keep'])
+        def annotate(text):
+            return ''.join((l + note if l.lstrip().startswith('@') else l) + '\n' for l in text.splitlines())
+        src, twin = annotate(src), annotate(twin)
     return {'src': src, 'twin': twin, 'access': access, 'kind': kind, 'name': name, 'cls': cls, 'idx': idx, 'flavour': flavour,
             'needle': needle, 'stack': stack, 'alias': alias}
 
